@@ -2,9 +2,15 @@
 
 package props
 
-import "github.com/issue9/mux/v9/types"
+import (
+	"github.com/issue9/mux/v9"
+	"github.com/issue9/mux/v9/types"
+)
 
 // drainPool empties the (shim) context pool so that every sequence starts alike.
 func drainPool() { types.VerifDrainPool() }
+
+// heldLocks is the number of router locks held right now (0 between sequential operations).
+func heldLocks() int64 { return mux.VerifHeldLocks() }
 
 const poolIsShim = true
